@@ -404,7 +404,7 @@ func lengthSub(r *core.Run, name string, cfg core.Cfg, maxLen int, fn func(s *co
 			ctxs = append(ctxs, c)
 		}
 	}
-	units := []string{"a", "ab ", "[", "*a", "\\", "&", "\"", "é", "<"}
+	units := []string{"a", "ab ", "[", "*a", "\\", "&", "\"", "é", "<", "ab\n", "a b c d e f g h i j k l m n o p q r s t u v w x y z a b c d e f g h i j k l m n o p q r s t u v w x y z\n"}
 	s := r.Sub(name, fmt.Sprintf("each of %d sink templates with § replaced by the first L bytes of the endless repetition of each unit in %q, for EVERY L from 1 to %d and then L = 2^k-1, 2^k, 2^k+1 up to %d, under %s", len(ctxs), units, maxLen, core.Pick(r, 8192, 70000), cfg))
 	s.Planned = int64(len(ctxs) * len(units) * len(sizeLadder(maxLen, core.Pick(r, 8192, 70000))))
 	s.Bound = fmt.Sprintf("%d templates × %d units × L=1..%d", len(ctxs), len(units), maxLen)
